@@ -52,8 +52,9 @@ Faithful(h, origs, dests, ns, w) ==
   /\ \A j \in 1..(Len(a) - 1) : a[j+1] # 0 /\ a[j+1] \in {h.next[a[j]], h.next_alt[a[j]]}
   /\ \A k \in 1..Len(w) : N(ns, w[k])[9] = 2 =>
         \E m \in 1..(k - 1) : N(ns, w[m])[9] = 1 /\ N(ns, w[m])[8] = N(ns, w[k])[8]
-  /\ \A k \in 1..Len(w) : N(ns, w[k])[9] = 1 =>          \* ... and every entered link is cleared later
-        \E m \in (k + 1)..Len(w) : N(ns, w[m])[9] = 2 /\ N(ns, w[m])[8] = N(ns, w[k])[8]
+  /\ \A k \in 1..Len(w) :                                  \* ... and every entered link is cleared later, except
+        (N(ns, w[k])[9] = 1 /\ N(ns, w[k])[8] # a[Len(a)]) =>   \* the last one (a train longer than its destination
+        \E m \in (k + 1)..Len(w) : N(ns, w[m])[9] = 2 /\ N(ns, w[m])[8] = N(ns, w[k])[8]   \* link never gets wholly inside)
 RouteFaithful(h, origs, dests, ns, W) == \A w \in W : Faithful(h, origs, dests, ns, w)
 
 INFq == 1073741824
